@@ -5,19 +5,19 @@ def _c17_nontrivial(cf):
     # plaintext was actually placed after an accepted STARTTLS exchange line
     if cf[2] == "srv":
         return cf[3][1] == "1" and cf[3][2] == "0" and cf[6] != "-"
-    if cf[2] == "cli":
+    if cf[2] in ("cli", "dial"):
         return cf[5] == "OK" and cf[6] != "-"
     return False
 
 
 CONFIG = dict(
-    correspondence="GoImap.StartTLS (Model/StartTLS.lean: two-mode byte router with an explicit reader buffer, server command handlers, client response handlers, NewStartTLS decision) vs (a) a real imapserver.Server with a TLS configuration behind a segment-exact in-memory connection and a recording session: greeting, every plaintext reply, raw bytes after the tagged OK, handshake outcome, replies inside TLS, session calls with the TLS flag of the connection at the time of the call; (b) the real imapclient.NewStartTLS against a scripted peer: result, data handed to the unilateral data handler, Caps(), a command after the upgrade, commands seen by the peer in plaintext and inside TLS, first bytes written after the STARTTLS command",
-    rule="corpus (canonical injection for every InsecureAuth x TLSConfig x greeting) + every segmentation (all 2^(n-1) splits) of every suffix of <= 12 bytes, placed in the segment of the STARTTLS line / in a later segment sent early / sent after the tagged OK was read, followed or not by a real TLS handshake + random configurations, pre-commands, STARTTLS line variants, suffixes <= 40 bytes (commands, SASL, garbage, TLS-like records) and random segmentations of the whole stream; client side: greetings OK/PREAUTH/BYE/none, replies OK/NO/BAD, injected responses, every segmentation of the short ones. Non-trivial = plaintext follows an accepted STARTTLS line; distinct = different case line",
+    correspondence="GoImap.StartTLS (Model/StartTLS.lean: two-mode byte router with an explicit reader buffer, server command handlers, client response handlers, NewStartTLS decision) vs (a) a real imapserver.Server with a TLS configuration behind a segment-exact in-memory connection and a recording session: greeting, every plaintext reply, raw bytes after the tagged OK, handshake outcome, replies inside TLS, session calls with the TLS flag of the connection at the time of the call; (b) the real imapclient.NewStartTLS (in-memory pipe) and imapclient.DialStartTLS (loopback TCP listener inside the harness) against a scripted peer: result, data handed to the unilateral data handler, Caps(), a command after the upgrade, commands seen by the peer in plaintext and inside TLS, first bytes written after the STARTTLS command",
+    rule="corpus (canonical injection for every InsecureAuth x TLSConfig x greeting) + every segmentation (all 2^(n-1) splits) of every suffix of <= 12 bytes, placed in the segment of the STARTTLS line / in a later segment sent early / sent after the tagged OK was read, followed or not by a real TLS handshake + random configurations, pre-commands, STARTTLS line variants, suffixes <= 40 bytes (commands, SASL, garbage, TLS-like records) and random segmentations of the whole stream; client side, both constructors (NewStartTLS, DialStartTLS): greetings OK/PREAUTH/BYE/none sent before the STARTTLS command was read or together with its tagged reply, replies OK/NO/BAD, injected responses, every segmentation of the short ones. Non-trivial = plaintext follows an accepted STARTTLS line; distinct = different case line",
     nontrivial=_c17_nontrivial,
     trusted=["crypto/tls (that a handshake rejects an input that starts with injected bytes is observed on every case, not modelled)", "the harness's SASL PLAIN token table (base64 of NUL user NUL pass) handed to the model"],
     assumptions=["the plaintext command language executed by the model is the small one the generators use (CAPABILITY, NOOP, LOGIN, AUTHENTICATE PLAIN with initial response, DELETE, STARTTLS, LOGOUT, unknown command); arbitrary bytes are only ever injected after an accepted STARTTLS line, where they must reach nothing but TLS", "segments are at most 4096 bytes (one bufio fill)"],
     leanchecker=True,
     timeout={"quick": 600, "thorough": 3600, "widen": 1200},
-    level_text="proof: for every segmentation of pre ++ STARTTLS-line ++ suffix the modelled reader hands exactly pre ++ line to the IMAP parser and every byte of the suffix to the TLS layer, no event originates in the suffix (server and client side); the capability/credential decision table; NewStartTLS refuses PREAUTH. The model is tied to the real server and client on every run; the oracle (session calls accounted for by legitimate traffic, only TLS records after the OK, no credentials offered/accepted without TLS, nothing injected delivered, PREAUTH refused) judges the implementation's observations",
+    level_text="proof: for every segmentation of pre ++ STARTTLS-line ++ suffix the modelled reader hands exactly pre ++ line to the IMAP parser and every byte of the suffix to the TLS layer, no event originates in the suffix (server and client side); the capability/credential decision table; NewStartTLS and DialStartTLS refuse PREAUTH. The model is tied to the real server and client on every run; the oracle (session calls accounted for by legitimate traffic, only TLS records after the OK, no credentials offered/accepted without TLS, nothing injected delivered, PREAUTH refused) judges the implementation's observations",
     level_note="partial: crypto/tls is trusted (handshake rejection of plaintext is observed, not proved). Theorem status is listed at the top of lean/GoImap/Props/C17.lean.",
 )
